@@ -2,9 +2,10 @@
 import ast
 
 from ..core import AnalysisError, src
-from ..pysym import SymExec, show
+from ..pysym import SymExec, show, path_values
 from ..rules_pyx import N, C, A
 from .. import boolfn as bf
+from .. import logic
 
 EXPLANATION = (
     'Static conformance of depccg/cat.py to R13.1-R13.4: Atom, Functor, UnaryFeature, TernaryFeature are '
@@ -119,13 +120,16 @@ def r_clear(mod, rep, R='R13.4'):
     w = '%s:%s Atom.clear_features' % (REL, fn.lineno)
     va = fn.args.vararg.arg if fn.args.vararg else None
     hit = miss = None
-    for st, out in SymExec(fn).run():
-        conds = [(c, p) for c, p, _ in st.conds]
-        test = ('cmp', 'in', A(N('self'), 'feature'), N(va))
-        if (test, True) in conds:
-            hit = st.ret in (('call', N('Atom'), (A(N('self'), 'base'),), ()), ('call', N('Atom'), (), (('base', A(N('self'), 'base')),)))
-        elif (test, False) in conds:
-            miss = st.ret == N('self')
+    test = logic.formula(('cmp', 'in', A(N('self'), 'feature'), N(va)))
+    for conds, v in path_values(SymExec(fn).run()):
+        if logic.implied(conds, test):
+            ok_ = v in (('call', N('Atom'), (A(N('self'), 'base'),), ()), ('call', N('Atom'), (), (('base', A(N('self'), 'base')),)))
+            hit = ok_ if hit is None else (hit and ok_)
+        elif logic.excluded(conds, test):
+            ok_ = v == N('self')
+            miss = ok_ if miss is None else (miss and ok_)
+        else:
+            hit = miss = False
     rep.check(bool(hit) and bool(miss), R, w, 'Atom:clear_features',
               'an atom drops its feature exactly when the feature is among the names to erase, and is otherwise returned unchanged',
               'Atom.clear_features does not return Atom(base) / self on the membership test of its feature')
